@@ -54,9 +54,22 @@ pub fn start_generator(zp: u64) -> Generator {
 /// of the 31 block hash contexts with 64 pieces (and activated the last-piece
 /// hash), was then `reset()`, and is brought to the zero prefix in place.
 pub fn start_generator_dirty(zp: u64) -> Generator {
+    start_generator_dirty_kind(zp, 1)
+}
+
+/// kind 1: all contexts populated by an earlier input; kind 2: the earlier input was digested under a
+/// small declared size (so the fork limit was lowered) and finalized
+pub fn start_generator_dirty_kind(zp: u64, kind: u8) -> Generator {
     let mut g = Generator::new();
-    g.update(&corpus::repeat(&corpus::W[30], 70));
-    g.update(&[1, 2, 3]);
+    if kind == 2 {
+        let first = corpus::repeat(&corpus::W[3], 20);
+        g.set_fixed_input_size(first.len() as u64).unwrap();
+        g.update(&first);
+        let _ = g.finalize();
+    } else {
+        g.update(&corpus::repeat(&corpus::W[30], 70));
+        g.update(&[1, 2, 3]);
+    }
     g.reset();
     if zp != 0 {
         g.verif_feed_zero_bytes(zp);
@@ -68,7 +81,11 @@ pub fn start_generator_dirty(zp: u64) -> Generator {
 pub fn run_case(c: &Value) -> Result<(), String> {
     let zp = c["zero_prefix"].as_u64().ok_or("zero_prefix")?;
     let hint = c["hint"].as_u64();
-    let mut g = if c["dirty_start"].as_bool() == Some(true) { start_generator_dirty(zp) } else { start_generator(zp) };
+    let mut g = match (c["dirty_start"].as_bool(), c["dirty_start"].as_u64()) {
+        (Some(true), _) => start_generator_dirty(zp),
+        (_, Some(k)) if k > 0 => start_generator_dirty_kind(zp, k as u8),
+        _ => start_generator(zp),
+    };
     let mut r = Ctph::new(zp);
     let mut hint = hint;
     if let Some(h) = hint {
@@ -77,6 +94,13 @@ pub fn run_case(c: &Value) -> Result<(), String> {
             Ok(()) => {
                 if h > refmodel::MAX_INPUT_SIZE {
                     return Err(format!("declared size {} above the limit was accepted", h));
+                }
+                // a second, different declaration is refused and must change nothing (see C13)
+                if h > 16 && c["dirty_start"].as_u64().unwrap_or(0) == 0 && c["dirty_start"].as_bool() != Some(true) {
+                    let r2 = guarded(|| g.set_fixed_input_size(h / 4096)).map_err(|p| format!("panic: {}", p))?;
+                    if r2 != Err(ssdeep::GeneratorError::FixedSizeMismatch) {
+                        return Err(format!("second declaration {} after {} returned {:?}", h / 4096, h, r2));
+                    }
                 }
             }
             Err(e) => {
@@ -277,7 +301,7 @@ pub fn run(ctx: &Ctx) -> Report {
         vec![0, 1, 7, 16, 113, (192u64 << 30) - 14]
     };
     // every start also as a *reused* generator for two of the prefixes (all 31 contexts dirty, then reset())
-    let starts_s1: Vec<(u64, bool)> = prefixes_s1.iter().map(|&z| (z, false)).chain([(0u64, true), (113u64, true)]).collect();
+    let starts_s1: Vec<(u64, u8)> = prefixes_s1.iter().map(|&z| (z, 0u8)).chain([(0u64, 1u8), (113u64, 1), (0, 2), (5000, 2)]).collect();
     let acc = par_shards(starts_s1.len() * na, |i, acc| {
         let (zp, dirty) = starts_s1[i / na];
         let a0 = i % na;
@@ -285,7 +309,7 @@ pub fn run(ctx: &Ctx) -> Report {
         fn rec(
             env: &Env,
             zp: u64,
-            dirty: bool,
+            dirty: u8,
             g: &Generator,
             r: &Ctph,
             depth: usize,
@@ -301,9 +325,9 @@ pub fn run(ctx: &Ctx) -> Report {
             if let Some(m) = step(&mut g2, &mut r2, word, form, acc) {
                 let mut c = case_json(zp, path, None);
                 c["dirty_start"] = json!(dirty);
-                acc.violation(format!("{}{}", sig("S1", zp, path, &|w| env.name(w)), if dirty { " reused-generator" } else { "" }), m, c);
+                acc.violation(format!("{}{}", sig("S1", zp, path, &|w| env.name(w)), if dirty > 0 { " reused-generator" } else { "" }), m, c);
             } else {
-                if !dirty {
+                if dirty == 0 {
                     one_slice_check(env, "S1", zp, path, &r2, acc);
                 }
                 if depth + 1 < 3 {
@@ -316,7 +340,7 @@ pub fn run(ctx: &Ctx) -> Report {
             }
             path.pop();
         }
-        let g = if dirty { start_generator_dirty(zp) } else { start_generator(zp) };
+        let g = if dirty > 0 { start_generator_dirty_kind(zp, dirty) } else { start_generator(zp) };
         let r = Ctph::new(zp);
         rec(&env, zp, dirty, &g, &r, 0, a0, &mut path, acc);
     });
@@ -490,11 +514,11 @@ pub fn run(ctx: &Ctx) -> Report {
         }
     }
     let maxlen = ctx.tier.pick(1500usize, 6000);
-    let acc = par_shards(patterns.len() * 2, |ii, acc| {
-        let i = ii / 2;
-        let dirty = ii % 2 == 1;
+    let acc = par_shards(patterns.len() * 3, |ii, acc| {
+        let i = ii / 3;
+        let dirty = (ii % 3) as u8;
         let p = &patterns[i];
-        let mut g = if dirty { start_generator_dirty(0) } else { Generator::new() };
+        let mut g = if dirty > 0 { start_generator_dirty_kind(0, dirty) } else { Generator::new() };
         let mut r = Ctph::new(0);
         let form = FORMS3[i % 3];
         for n in 0..maxlen {
@@ -504,11 +528,11 @@ pub fn run(ctx: &Ctx) -> Report {
                 let ch = vec![Chunk { word: whole, count: 1, form }];
                 let mut cj = case_json(0, &ch, None);
                 cj["dirty_start"] = json!(dirty);
-                acc.violation(format!("S3b pattern={} len={}{}", hex(p), n + 1, if dirty { " reused-generator" } else { "" }), m, cj);
+                acc.violation(format!("S3b pattern={} len={}{}", hex(p), n + 1, if dirty > 0 { " reused-generator" } else { "" }), m, cj);
                 return;
             }
         }
-        if dirty {
+        if dirty > 0 {
             return;
         }
         // the whole string as one slice + hash_buf
@@ -560,7 +584,7 @@ pub fn run(ctx: &Ctx) -> Report {
     rep.set("exhaustive_scope", "S1, S2, S3 are enumerated completely within the stated bounds; S4 is supplementary (seeded) and outside the exhaustive claim");
     rep.set(
         "rule",
-        "lock-step enumeration: alphabet = 31 trigger words W0..W30 (7 bytes; W_k ends a piece at levels 0..=k), Z (7 zero bytes), U (roll = 0xFFFFFFFF), F (filler), bytes 00 and 01; S1 = all sequences of length <=3 from new() and zero-prefix starts; S2 = sym1^c1 sym2^c2 [sym3^c3] with every count 1..66 on the way (one-slice re-feed at counts {1,2,31,32,33,63,64,65,66}); S3 = all byte strings over {00,01,FF} up to the tier length, every constant byte and short pattern repeated to every length (on a fresh and on a reused generator: all 31 contexts populated by an earlier input, then reset()); S1 also from reused generators; forms rotate over update/update_by_iter/update_by_byte/+=slice/+=byte; every step compares finalize, finalize_without_truncation, finalize_raw::<false,64,32>, input_size and the small-size warning with the declarative reference. A case = one prefix; all are distinct by construction; non-trivial = at least one byte fed.",
+        "lock-step enumeration: alphabet = 31 trigger words W0..W30 (7 bytes; W_k ends a piece at levels 0..=k), Z (7 zero bytes), U (roll = 0xFFFFFFFF), F (filler), bytes 00 and 01; S1 = all sequences of length <=3 from new() and zero-prefix starts; S2 = sym1^c1 sym2^c2 [sym3^c3] with every count 1..66 on the way (one-slice re-feed at counts {1,2,31,32,33,63,64,65,66}); S3 = all byte strings over {00,01,FF} up to the tier length, every constant byte and short pattern repeated to every length (on a fresh and on two kinds of reused generator: all 31 contexts populated by an earlier input, or an earlier input digested under a small declared size; then reset()); S1 also from reused generators; forms rotate over update/update_by_iter/update_by_byte/+=slice/+=byte; every step compares finalize, finalize_without_truncation, finalize_raw::<false,64,32>, input_size and the small-size warning with the declarative reference. A case = one prefix; all are distinct by construction; non-trivial = at least one byte fed.",
     );
     rep.assume("refmodel::ctph is ssdeep 2.14.1 (bound to 472 libfuzzy vectors and two multi-GiB libfuzzy vectors by the self-test on every run)");
     rep.assume("zero-prefix starts use hook H1 (validated against really feeding zeros at the start of this run)");
